@@ -294,7 +294,7 @@ func (c *Chain) ProjectBank(ctx sdk.Context) M {
 					junk = append(junk, "vesting/"+n)
 					continue
 				}
-				vest = append(vest, M{"a": n, "d": co.Denom, "amt": amt, "end": absTime(va.GetEndTime() * 1_000_000_000)})
+				vest = append(vest, M{"a": n, "d": co.Denom, "amt": amt, "end": int(va.GetEndTime() - t0.Unix())})
 			}
 		}
 	}
